@@ -283,7 +283,7 @@ class MqttEnd:
         FakeAioMqtt.connect_fault = False
         FakeAioMqtt.current = None
         self.transport = mqtt_mod.MQTTClient("broker.invalid", in_prefix="verif/in", out_prefix="verif/out")
-        loop.run_until_complete(self.transport.connect())
+        loop.run_until_complete(asyncio.wait_for(self.transport.connect(), 5))
         self.fake = FakeAioMqtt.current
         self.taken = 0
 
